@@ -303,6 +303,60 @@ where
             }
         }
         if all_ok {
+            // (iii) the value inside a stream of items: the Serializer / Deserializer built from a native Encoder /
+            // Decoder that has already written / read something, and turned back into one
+            evals += 1;
+            let stream = {
+                let mut e = minicbor::Encoder::new(Vec::new());
+                e.u8(5).unwrap();
+                let mut ser = minicbor_serde::Serializer::from(e);
+                let r1 = v.serialize(&mut ser).is_ok();
+                let mut e = ser.into_encoder();
+                e.u8(6).unwrap();
+                let mut ser = minicbor_serde::Serializer::new(e.into_writer());
+                let r2 = v.serialize(&mut ser).is_ok();
+                if r1 && r2 { Some(ser.into_encoder().into_writer()) } else { None }
+            };
+            let mut want = vec![0x05];
+            want.extend_from_slice(&bytes);
+            want.push(0x06);
+            want.extend_from_slice(&bytes);
+            match stream {
+                Some(s) if s == want => {}
+                other => {
+                    sink.fail(sub, None, wrapper, leaf, shown.clone(), hex(&want), format!("Serializer::from(encoder) / Serializer::new(writer) inside a stream wrote {:?}", other.map(|b| hex(&b))));
+                    all_ok = false;
+                }
+            }
+            let verdict: Result<(), String> = (|| {
+                let mut d = minicbor::Decoder::new(&want);
+                d.u8().map_err(|e| e.to_string())?;
+                let mut de = minicbor_serde::Deserializer::from(d);
+                let a = T::deserialize(&mut de).map_err(|e| format!("first value: {}", e))?;
+                if a != *v {
+                    return Err(format!("first value deserialised to {:?}", a));
+                }
+                let mut d = de.into_decoder();
+                if d.position() != 1 + bytes.len() {
+                    return Err(format!("into_decoder() after the first value is at {} instead of {}", d.position(), 1 + bytes.len()));
+                }
+                d.u8().map_err(|e| e.to_string())?;
+                let mut de = minicbor_serde::Deserializer::from(d);
+                let b = T::deserialize(&mut de).map_err(|e| format!("second value: {}", e))?;
+                if b != *v {
+                    return Err(format!("second value deserialised to {:?}", b));
+                }
+                if de.decoder().position() != want.len() {
+                    return Err(format!("after the second value the position is {} of {}", de.decoder().position(), want.len()));
+                }
+                Ok(())
+            })();
+            if let Err(msg) = verdict {
+                sink.fail(sub, None, wrapper, leaf, shown.clone(), hex(&want), format!("Deserializer::from(decoder) in the middle of a stream [5, v, 6, v]: {}", msg));
+                all_ok = false;
+            }
+        }
+        if all_ok {
             ok += 1;
         }
     }
@@ -768,21 +822,61 @@ where
         for (k, variant) in widths.iter().map(|x| (true, x)).chain(framed.iter().map(|x| (false, x))) {
             let input = variant.to_bytes();
             evals += 1;
-            let a = minicbor::decode::<T>(&input);
-            let b = minicbor_serde::from_slice::<T>(&input);
+            let mut nd = minicbor::Decoder::new(&input);
+            let a = nd.decode::<T>();
+            let mut bd = minicbor_serde::Deserializer::new(&input);
+            let b = T::deserialize(&mut bd);
             let mut bad = None;
             match &a {
                 Ok(x) if x != v => bad = Some(format!("native decode returned a different value {:?}", x)),
+                Ok(_) if nd.position() != input.len() => bad = Some(format!("native decode returned the value but consumed {} of {} bytes", nd.position(), input.len())),
                 Err(e) if k => bad = Some(format!("native decode rejected a wider-head encoding: {}", e)),
                 _ => {}
             }
             match &b {
                 Ok(x) if x != v => bad = Some(format!("the bridge returned a different value {:?}", x)),
+                Ok(_) if bd.decoder().position() != input.len() => bad = Some(format!("the bridge returned the value but consumed {} of {} bytes", bd.decoder().position(), input.len())),
                 Err(e) if k => bad = Some(format!("the bridge rejected a wider-head encoding: {}", e)),
                 _ => {}
             }
             if let Some(m) = bad {
                 sink.fail(sub, None, "both", name, shown.clone(), hex(&input), m);
+                all_ok = false;
+            }
+        }
+        if all_ok {
+            // one stream, the two sides taking turns: [v, v] read native-then-bridge and bridge-then-native, the
+            // (de)serializer built from the native coder in mid-stream and turned back into it
+            evals += 1;
+            let mut stream = native.clone();
+            stream.extend_from_slice(&native);
+            let verdict: Result<(), String> = (|| {
+                let mut d = minicbor::Decoder::new(&stream);
+                let a = d.decode::<T>().map_err(|e| format!("native, first: {}", e))?;
+                let mut de = minicbor_serde::Deserializer::from(d);
+                let b = T::deserialize(&mut de).map_err(|e| format!("bridge, second (Deserializer::from(decoder) in mid-stream): {}", e))?;
+                if a != *v || b != *v || de.decoder().position() != stream.len() {
+                    return Err(format!("native-then-bridge read {:?}, {:?} and ended at {} of {}", a, b, de.decoder().position(), stream.len()));
+                }
+                let mut de = minicbor_serde::Deserializer::new(&stream);
+                let a = T::deserialize(&mut de).map_err(|e| format!("bridge, first: {}", e))?;
+                let mut d = de.into_decoder();
+                let b = d.decode::<T>().map_err(|e| format!("native, second (after into_decoder()): {}", e))?;
+                if a != *v || b != *v || d.position() != stream.len() {
+                    return Err(format!("bridge-then-native read {:?}, {:?} and ended at {} of {}", a, b, d.position(), stream.len()));
+                }
+                let mut e = minicbor::Encoder::new(Vec::new());
+                e.encode(v).map_err(|e| e.to_string())?;
+                let mut ser = minicbor_serde::Serializer::from(e);
+                v.serialize(&mut ser).map_err(|e| e.to_string())?;
+                let w = ser.into_encoder().into_writer();
+                if w != stream {
+                    return Err(format!("native-then-bridge wrote {}", hex(&w)));
+                }
+                Ok(())
+            })();
+            if let Err(m) = verdict {
+                sink.fail(sub, None, "both", name, shown.clone(), hex(&stream), format!("the two sides taking turns on the stream [v, v]: {}", m));
                 all_ok = false;
             }
         }
